@@ -70,6 +70,9 @@ func buildFromDefinition(def *configDefinition, lc *loaderContext) (cfg *Config,
 	cfg = NewConfig()
 
 	for k, v := range def.Contexts {
+		if v == nil {
+			return nil, fmt.Errorf("context %s is empty", k)
+		}
 		cfg.Contexts[k], err = buildContext(v)
 		if err != nil {
 			return nil, err
@@ -77,6 +80,9 @@ func buildFromDefinition(def *configDefinition, lc *loaderContext) (cfg *Config,
 	}
 
 	for k, v := range def.Tasks {
+		if v == nil {
+			return nil, fmt.Errorf("task %s is empty", k)
+		}
 		cfg.Tasks[k], err = buildTask(v, lc)
 		if cfg.Tasks[k].Name == "" {
 			cfg.Tasks[k].Name = k
@@ -87,6 +93,9 @@ func buildFromDefinition(def *configDefinition, lc *loaderContext) (cfg *Config,
 	}
 
 	for k, v := range def.Watchers {
+		if v == nil {
+			return nil, fmt.Errorf("watcher %s is empty", k)
+		}
 		t := cfg.Tasks[v.Task]
 		if t == nil {
 			return nil, fmt.Errorf("no such task %s", v.Task)
